@@ -38,7 +38,7 @@ theorem accounts_append_split {pos : Bool} : ∀ {us1 : List UTok} {us2 : List U
       · simp at h
 
 /-- a leading token that does not allow a comma before it -/
-theorem accounts_cons_inv {pos : Bool} {u : UTok} {us : List UTok} {ts : List Token} (ho : u.optComma = false)
+theorem accounts_cons_inv_spanex {pos : Bool} {u : UTok} {us : List UTok} {ts : List Token} (ho : u.optComma = false)
     (h : accounts pos (u :: us) ts = true) :
     ∃ t ts', ts = t :: ts' ∧ (pos = true → posMatches u t = true) ∧ accounts pos us ts' = true := by
   cases ts with
@@ -54,7 +54,7 @@ theorem accounts_cons_inv {pos : Bool} {u : UTok} {us : List UTok} {ts : List To
     · simp [ho] at h
 
 /-- a leading token that may allow a comma before it: `m` is empty or that comma -/
-theorem accounts_cons_inv_opt {u : UTok} {us : List UTok} {ts : List Token}
+theorem accounts_cons_inv_opt_spanex {u : UTok} {us : List UTok} {ts : List Token}
     (h : accounts true (u :: us) ts = true) :
     ∃ m t ts', ts = m ++ t :: ts' ∧ posMatches u t = true ∧ accounts true us ts' = true := by
   cases ts with
@@ -105,7 +105,7 @@ theorem accounts_span_cons {u : UTok} {us : List UTok} {ts : List Token} (sp : S
     (hs : u.start = some sp.start) (he : u.stop = some sp.stop) (ho : u.optComma = false)
     (h : accounts true (u :: us) ts = true) :
     ∃ t ts', ts = t :: ts' ∧ sp = t.span ∧ accounts true us ts' = true := by
-  obtain ⟨t, ts', rfl, hp, hr⟩ := accounts_cons_inv ho h
+  obtain ⟨t, ts', rfl, hp, hr⟩ := accounts_cons_inv_spanex ho h
   exact ⟨t, ts', rfl, posMatches_span hs he (hp rfl), hr⟩
 
 /-- … that may have a comma before it -/
@@ -113,7 +113,7 @@ theorem accounts_span_cons_opt {u : UTok} {us : List UTok} {ts : List Token} (sp
     (hs : u.start = some sp.start) (he : u.stop = some sp.stop)
     (h : accounts true (u :: us) ts = true) :
     ∃ m t ts', ts = m ++ t :: ts' ∧ sp = t.span ∧ accounts true us ts' = true := by
-  obtain ⟨m, t, ts', rfl, hp, hr⟩ := accounts_cons_inv_opt h
+  obtain ⟨m, t, ts', rfl, hp, hr⟩ := accounts_cons_inv_opt_spanex h
   exact ⟨m, t, ts', rfl, posMatches_span hs he hp, hr⟩
 
 /-- two leading tokens that share one span field (`sort by`, `nulls first`) -/
@@ -121,8 +121,8 @@ theorem accounts_span2_cons {u1 u2 : UTok} {us : List UTok} {ts : List Token} (s
     (hs : u1.start = some sp.start) (he : u2.stop = some sp.stop) (ho1 : u1.optComma = false)
     (ho2 : u2.optComma = false) (h : accounts true (u1 :: u2 :: us) ts = true) :
     ∃ t1 t2 ts', ts = t1 :: t2 :: ts' ∧ sp = ext [t1, t2] ∧ accounts true us ts' = true := by
-  obtain ⟨t1, ts1, rfl, hp1, hr1⟩ := accounts_cons_inv ho1 h
-  obtain ⟨t2, ts2, rfl, hp2, hr2⟩ := accounts_cons_inv ho2 hr1
+  obtain ⟨t1, ts1, rfl, hp1, hr1⟩ := accounts_cons_inv_spanex ho1 h
+  obtain ⟨t2, ts2, rfl, hp2, hr2⟩ := accounts_cons_inv_spanex ho2 hr1
   refine ⟨t1, t2, ts2, rfl, ?_, hr2⟩
   have h1 := posMatches_start hs (hp1 rfl)
   have h2 := posMatches_stop he (hp2 rfl)
@@ -133,7 +133,7 @@ theorem accounts_span2_cons {u1 u2 : UTok} {us : List UTok} {ts : List Token} (s
 /-- a leading token without claimed positions (comma, dot) -/
 theorem accounts_plain_cons {pos : Bool} {u : UTok} {us : List UTok} {ts : List Token} (ho : u.optComma = false)
     (h : accounts pos (u :: us) ts = true) : ∃ t ts', ts = t :: ts' ∧ accounts pos us ts' = true := by
-  obtain ⟨t, ts', rfl, _, hr⟩ := accounts_cons_inv ho h
+  obtain ⟨t, ts', rfl, _, hr⟩ := accounts_cons_inv_spanex ho h
   exact ⟨t, ts', rfl, hr⟩
 
 /-- a single token claiming the span `sp` -/
